@@ -39,6 +39,15 @@ class C10(flow.Spec):
         out.append(("ingest 2 9 O F 5 1 0 0 0 H O F 5 2 0 0 0 O F 5 3 0 0 0 O F 6 1 0 0 0 O F 6 2 0 0 0 R O F 5 3 0 0 0 O F 6 1 0 0 0", {"two-actor-overflow"}))
         out.append(("ingest 3 5 X 1 O F 5 1 0 0 0 O F 5 1 0 0 0 O E 5 1 3 O E 5 1 3", {"failed-batch"}))
         out.append(("ingest 1 8 H O F 5 1 0 1 1 O F 5 2 0 1 1 O E 5 2 2 R O F 5 2 0 1 1 O E 5 2 2 O E 5 2 2", {"emptied-entry"}))
+        # a seen cache that is NOT cleared by the periodic trim (queue length > 10, few distinct
+        # versions): a lone chunk of a version is displaced by the chunks of one big transaction;
+        # afterwards peers answer with an Empty changeset for it
+        for maxq in ([11, 12] if tier == "quick" else [11, 12, 13, 15, 20]):
+            for victim in ("O F 5 2 0 0 5", "O F 6 7 1 2 4"):
+                ops = ["H", "O F 5 1 0 0 40", victim] + ["O F 5 1 %d %d 40" % (q, q) for q in range(1, maxq + 1)] + ["R"]
+                a, v = victim.split()[2], victim.split()[3]
+                ops += ["O E %s %s %s" % (a, v, v)] * 3
+                out.append(("ingest %d %d %s" % (maxq, len(ops), " ".join(ops)), {"seen-cache-not-trimmed", "displaced-then-emptied"}))
         for _ in range(N):
             maxq = rnd.choice([1, 1, 2, 2, 3])
             ops, held, tags = [], False, {"random"}
